@@ -5,6 +5,7 @@
    is tied to the code by the correspondence check: model and implementation agree on the full call log and on
    the full EvictionCache trace of every generated case. *)
 From Connectome Require Import Values Attrs VM Edges Evaluator Sim L2 C01Main C01Inst EdgeFacts Examples.
+From Connectome Require ColStore ColumnsGen Columns ColumnsFacts EqFacts.
 Local Open Scope list_scope.
 
 Theorem C03_generators_once :
@@ -48,3 +49,36 @@ Example C03_example_log :
            [(0, VStr "k1")] 4 tt 400) = ["f"; "g"].
 Proof. split; vm_compute; reflexivity. Qed.
 Print Assumptions C03_example_log.
+
+(* ---------- column caches: "exactly once" does NOT hold (finding F9) ----------
+   Whenever a request through a column of CacheColumns misses the RAM table, the hash pass of the requested entry -
+   with every @hash_by_value / impure function in it - runs twice: once by the calling VM (to obtain the hash the
+   column is looked up with) and once more inside the loop over the shard (graph.get_hash(k) for every k of the
+   shard, the requested key among them).  Over the REGENERATED body of CachedColumn.evaluate, for every shard size,
+   every set of ids, every state of the stores.  The check reports this as a KNOWN-FINDING with a concrete pipeline. *)
+Theorem C03_column_miss_hashes_requested_entry_twice :
+  forall (sorted : list val -> list val) (get_hash : nat -> val -> option nhash) (get_value : nat -> val -> option val)
+         (h : nat -> val -> nhash),
+  (forall l, Permutation.Permutation (sorted l) l) ->
+  (forall c k x, get_hash c k = Some x -> x = h c k) ->
+  forall col size key keys st r st' ev,
+  ColumnsFacts.exact_key pyeq key -> In key keys -> size <> Some 0 ->
+  get_hash col key = Some (h col key) -> (forall k, get_hash col k <> None) ->
+  ColStore.ram_get hpyeq st (h col key) = None ->
+  Columns.column_request hpyeq heqb pyeq sorted get_hash get_value col size key keys st = (r, st', ev) ->
+  exists ev', ev = ColStore.CHash col key :: ColStore.CKeyReq :: ColStore.CKeysReq :: ev' /\ In (ColStore.CHash col key) ev'.
+Proof.
+  intros sorted get_hash get_value h H1 H2.
+  exact (ColumnsFacts.column_miss_hashes_entry_twice hpyeq heqb pyeq sorted get_hash get_value h EqFacts.hpyeq_refl EqFacts.pyeq_refl H1 H2).
+Qed.
+Print Assumptions C03_column_miss_hashes_requested_entry_twice.
+
+(* the smallest instance: one id, one column, empty stores *)
+Example C03_example_column_miss :
+  exists st', ColumnsFacts.py_request (fun l => l) (fun c k => Some (ColumnsFacts.f11_h c k)) (fun c k => Some (ColumnsFacts.f11_v c k))
+                0 None ColumnsFacts.f11_key [ColumnsFacts.f11_key] ColStore.colstore0
+  = (ColStore.COk (ColumnsFacts.f11_v 0 ColumnsFacts.f11_key), st',
+     [ColStore.CHash 0 ColumnsFacts.f11_key; ColStore.CKeyReq; ColStore.CKeysReq; ColStore.CHash 0 ColumnsFacts.f11_key;
+      ColStore.CValue 0 ColumnsFacts.f11_key]).
+Proof. exact ColumnsFacts.f9_example. Qed.
+Print Assumptions C03_example_column_miss.
